@@ -27,6 +27,8 @@ const (
 	kGasCaller    = "GAS-caller"
 	kNone         = "none"
 	kKeyOrStored  = "Key(arg)|StoredAlphabet"
+	kStoredNode   = "StoredAlphabetNode(vote)"
+	kKeyOrNode    = "Key(arg)|StoredAlphabetNode(vote)"
 )
 
 type spec struct {
@@ -126,6 +128,23 @@ var table = map[string]spec{
 	"neofs.setConfig/3":      {kind: kAlphabet, args: func(p *prep) []any { return []any{[]byte("cfgid"), []byte("SomeKey"), []byte("v")} }},
 	"neofs.update/3":         updateSpec("neofs", kRoleMajority),
 	"neofs.withdraw/2":       {kind: kKey, key: func(p *prep) *keys.PrivateKey { return p.u0k }, args: func(p *prep) []any { return []any{p.u0.ScriptHash(), int64(3)} }},
+	// ---- neofs deployed with Notary disabled: Alphabet-only methods are votes of single stored Alphabet keys
+	"neofs-nonotary.alphabetUpdate/2": {kind: kStoredNode, args: func(p *prep) []any { return []any{[]byte("id1"), []any{p.w.Pubs[0].Bytes()}} }},
+	"neofs-nonotary.cheque/4":         {kind: kStoredNode, args: func(p *prep) []any { return []any{[]byte("chq"), p.u1.ScriptHash(), int64(1000), []byte{1}} }},
+	"neofs-nonotary.setConfig/3":      {kind: kStoredNode, args: func(p *prep) []any { return []any{[]byte("cfgid"), []byte("SomeKey"), []byte("v")} }},
+	"neofs-nonotary.innerRingCandidateRemove/1": {kind: kKeyOrNode, key: func(p *prep) *keys.PrivateKey { return p.cand1 }, args: func(p *prep) []any {
+		return []any{p.cand1.PublicKey().Bytes()}
+	}},
+	"neofs-nonotary.innerRingCandidateAdd/1": {kind: kKey, key: func(p *prep) *keys.PrivateKey { return p.cand0 }, args: func(p *prep) []any {
+		return []any{p.cand0.PublicKey().Bytes()}
+	}},
+	"neofs-nonotary.bind/2": {kind: kKey, key: func(p *prep) *keys.PrivateKey { return p.u0k }, args: func(p *prep) []any {
+		return []any{p.u0.ScriptHash(), []any{p.u1k.PublicKey().Bytes()}}
+	}},
+	"neofs-nonotary.unbind/2": {kind: kKey, key: func(p *prep) *keys.PrivateKey { return p.u0k }, args: func(p *prep) []any {
+		return []any{p.u0.ScriptHash(), []any{p.u1k.PublicKey().Bytes()}}
+	}},
+	"neofs-nonotary.withdraw/2": {kind: kKey, key: func(p *prep) *keys.PrivateKey { return p.u0k }, args: func(p *prep) []any { return []any{p.u0.ScriptHash(), int64(3)} }},
 	// ---- neofsid
 	"neofsid.addKey/2":    {kind: kAlphabet, args: func(p *prep) []any { return []any{p.ownerID, []any{p.u1k.PublicKey().Bytes()}} }},
 	"neofsid.removeKey/2": {kind: kAlphabet, args: func(p *prep) []any { return []any{p.ownerID, []any{p.u0k.PublicKey().Bytes()}} }},
@@ -262,6 +281,14 @@ func (p *prep) signerSets(s spec) []signerSet {
 		return []signerSet{nobody, stranger, member, {"another-key", []world.SignerSpec{single(p.cand0)}, false},
 			{"majority", []world.SignerSpec{g(w.Majority)}, majIsAlpha},
 			{"named-key", []world.SignerSpec{single(key)}, true}}
+	case kStoredNode, kKeyOrNode:
+		// the contract keeps its own Alphabet list (= the committee keys here); a vote needs the witness of one
+		// of those single keys: no multi-signature account, no other key
+		sets := []signerSet{nobody, stranger, {"another-key", []world.SignerSpec{single(p.cand0)}, false}, maj, alpha}
+		if s.kind == kKeyOrNode {
+			return append(sets, signerSet{"stored-alphabet-node", []world.SignerSpec{g(w.Members[0])}, true}, signerSet{"named-key", []world.SignerSpec{single(s.key(p))}, true})
+		}
+		return append(sets, signerSet{"stored-alphabet-node", []world.SignerSpec{g(w.Members[0])}, true})
 	case kNone:
 		return []signerSet{{"nobody", nil, true}}
 	}
@@ -588,6 +615,13 @@ func runC03(b *runner.Batch) {
 			unsafe = append(unsafe, m)
 		}
 	}
+	for _, m := range ms {
+		if m.art == "neofs" {
+			if _, ok := table[fmt.Sprintf("neofs-nonotary.%s/%d", m.name, m.arity)]; ok {
+				unsafe = append(unsafe, mdesc{"neofs-nonotary", m.name, m.arity, false})
+			}
+		}
+	}
 	sz := sizes(b.Tier)
 	per := len(unsafe) + 2
 	n := sz[(b.Index/per)%len(sz)]
@@ -620,10 +654,10 @@ func init() {
 		Rule: "The method list is read from the manifests compiled from the working tree (non-safe callable methods of 11 contracts). Each method gets a freshly prepared world (all contracts deployed, live container with roster, candidates, names, deposits) and is executed under every signer set of its requirement kind {nobody, stranger, single committee member, Majority where the Alphabet is required and vice versa, the named key without the Alphabet, the Alphabet without the named key, another key, the appointed admin of the name without its owner, the Inner Ring majority dismissed by a re-designation in the previous block, ...}, insufficient sets first, the sufficient one last, on committees of 3 and 1 (quick) / 3, 1 and 7 (thorough). Documented alternative witnesses (the appointed admin for NNS record methods, the Inner Ring majority designated in the previous block) are run as further sufficient sets; an insufficient set that reaches an update's version check counts as having passed the witness gate. Classification per transaction: effect (HALT with storage diff or notification) / inert (FAULT, rejected, or HALT without diff, notification or native token transfer). Safe methods are called inside a fully witnessed transaction; verify methods are invoked directly and used as contract witnesses of real transactions. distinct = (method, signer set, outcome, committee size).",
 		Assumptions: []string{"neo-go v0.107.0 VM, ledger and native contracts are the trusted base", "contracts are compiled at check time from /repo/contracts",
 			"update with sufficient witnesses is judged by reaching the version check (same-version fault); the successful upgrade itself is exercised by C16", "a method without a row in the table makes the run inconclusive"},
-		Batches: func(tier string) int { return 90 * len(sizes(tier)) }, // room for methods added to a manifest
+		Batches: func(tier string) int { return 110 * len(sizes(tier)) }, // room for methods added to a manifest
 		Helpers: []string{"probe"},
 		Chunk:   4,
-		Floors: []string{"sufficient:" + kAlphabet, "sufficient:" + kMajority, "sufficient:" + kKey, "sufficient:" + kKeyAlphabet, "sufficient:" + kOwnerAdmin, "sufficient:" + kNode, "sufficient:" + kRoleMajority, "sufficient:" + kGasCaller, "sufficient:" + kNone, "sufficient:" + kKeyOrStored,
+		Floors: []string{"sufficient:" + kAlphabet, "sufficient:" + kMajority, "sufficient:" + kKey, "sufficient:" + kKeyAlphabet, "sufficient:" + kOwnerAdmin, "sufficient:" + kNode, "sufficient:" + kRoleMajority, "sufficient:" + kGasCaller, "sufficient:" + kNone, "sufficient:" + kKeyOrStored, "sufficient:" + kStoredNode, "sufficient:" + kKeyOrNode,
 			"insufficient:nobody", "insufficient:" + lblDismissed, "sufficient-alternative:appointed-admin", "insufficient:current-admin+new-admin", "insufficient:appointed-admin", "insufficient:single-member", "insufficient:majority", "insufficient:alphabet", "insufficient:named-key-without-alphabet", "insufficient:alphabet-without-named-key", "safe-method-halted", "verify-accepts:proxy", "verify-refuses:proxy", "verify-accepts:processing", "verify-refuses:processing", "verify-accepts:alphabet"},
 		Run: runC03,
 		Finish: func(m *runner.Merged, cov map[string]any) {
